@@ -276,6 +276,7 @@ def run(args, prop, meta, tier, seed, run_dir, t_start):
     known = load_known()
     merged = {"evaluations": 0, "counters": {}, "samples": [], "violations": [], "violations_total": 0, "notes": []}
     fp_files = []
+    st_files = []
     distinct_overflow = 0
     inconclusive = []
     stage_notes = []
@@ -343,6 +344,8 @@ def run(args, prop, meta, tier, seed, run_dir, t_start):
                 distinct_overflow += rep.get("distinct_overflow", 0)
                 if os.path.exists(s.out + ".fp"):
                     fp_files.append(s.out + ".fp")
+                if os.path.exists(s.out + ".st"):
+                    st_files.append(s.out + ".st")
             else:
                 handle_lost_shard(prop, tier, seed, s, flavor, st, merged, inconclusive, run_dir)
 
@@ -357,6 +360,15 @@ def run(args, prop, meta, tier, seed, run_dir, t_start):
             distinct = int(p.stdout.strip())
         except ValueError:
             distinct = 0
+
+    states = 0
+    if st_files:
+        binp = os.path.join(HARNESS, FLAVORS["native"][2])
+        p = subprocess.run([binp, "merge-fp"] + st_files, stdout=subprocess.PIPE, text=True)
+        try:
+            states = int(p.stdout.strip())
+        except ValueError:
+            states = 0
 
     # ---- verdicts
     os.makedirs(os.path.join(VERIF, "replay"), exist_ok=True)
@@ -403,6 +415,9 @@ def run(args, prop, meta, tier, seed, run_dir, t_start):
         "observed": dict(sorted(merged["counters"].items())),
         "stages": [s["flavor"] for s in stages],
     }
+    if states:
+        coverage["states"] = states
+        coverage["states_note"] = "distinct abstract server states observed after polling calls (multiset of per-connection state x in-flight class x pending output x parser state x carried bytes, + outstanding requests, + clients waiting on the listener); read from the read-only probe, evidence only"
     if distinct_overflow:
         coverage["distinct_not_counted_after_cap"] = distinct_overflow
     if meta.get("exhaustive", {}).get(tier):
